@@ -526,6 +526,12 @@ pub fn run(cfg: &Cfg, rep: &mut Report) {
             format!("a := import \"{uses}\"; n := 1; s := \"a\"; b := import \"{uses}\"; b"),
             format!("n := 1; s := \"a\"; m := mod {{ x := import \"{uses}\" }}; k := (s: int) -> any {{ return import \"{uses}\" }}; k(2)"),
             format!("n := 2; s := \"a\"; a := import \"{uses}\"; n := 10; b := import \"{uses}\"; (a.twice, b.twice)"),
+            format!("f := (n: int, s: string) -> any {{ return import \"{uses}\" }}; g := () -> any {{ return import \"{uses}\" }}; g()"),
+            format!("f := (n: int, s: string) -> any {{ return import \"{uses}\" }}; m := import \"{uses}\"; m"),
+            format!("f := (n: int, s: string) -> any {{ return import \"{uses}\" }}; n := \"ab\"; s := \"x\"; m := import \"{uses}\"; m"),
+            format!("f := (n: int, s: string) -> any {{ return import \"{uses}\" }}; n := 3; s := 4; m := import \"{uses}\"; m"),
+            format!("{{ n := 1; s := \"a\"; a := import \"{uses}\" }}; b := import \"{uses}\"; b"),
+            format!("for n in [1]~ {{ s := \"a\"; a := import \"{uses}\" }}; for s in [1]~ {{ n := 2; b := import \"{uses}\" }}"),
         ] {
             let r = ctx.parse("import-twice", &src, false);
             ctx.rep.shape("import_cases", &format!("twice:{}", ["syntax-error", "checker-error", "accepted", "panic"][r as usize]));
